@@ -3,6 +3,7 @@
 # Confirms in a scratch worktree: suite passes with mutant; demo fails with mutant; demo passes without.
 set -u
 id=$1; m=$2; src=$3
+RACEFLAG=""; [ "${RACE:-0}" = "1" ] && RACEFLAG="-race"
 export GOFLAGS=-mod=mod GOPROXY=off GOSUMDB=off GOTOOLCHAIN=local
 wt=/tmp/vseed_${id}_${m}
 git -C /repo worktree remove --force $wt >/dev/null 2>&1
@@ -18,17 +19,17 @@ win=$src/${m}_window.diff
 # 1. demo on unchanged (+window)
 [ -f $win ] && git apply $win
 cp $demo $pkgdir/zz_demo_test.go
-if go test -vet=off -count=1 -run "^${tname}\$" ./$pkgdir > /tmp/vseed_${id}_${m}.base.log 2>&1; then res="$res demo_on_base=pass"; else res="$res demo_on_base=FAIL"; fi
+if unshare -n bash -c "ip link set lo up; go test $RACEFLAG -vet=off -count=1 -run '^${tname}\$' ./$pkgdir" > /tmp/vseed_${id}_${m}.base.log 2>&1; then res="$res demo_on_base=pass"; else res="$res demo_on_base=FAIL"; fi
 rm -f $pkgdir/zz_demo_test.go; git checkout -q -- .
 # 2. mutant: build, suite, demo
 if ! git apply $src/$m.diff; then echo "$res patch=NOAPPLY"; cd /; git -C /repo worktree remove --force $wt; exit 1; fi
 if go build ./... >/dev/null 2>&1 && go vet ./... >/dev/null 2>&1; then res="$res build=ok"; else res="$res build=FAIL"; fi
-if go test -vet=off -count=1 -timeout 20m ./... > /tmp/vseed_${id}_${m}.suite.log 2>&1; then res="$res suite=pass"; else
+if unshare -n bash -c "ip link set lo up; go test -vet=off -count=1 -timeout 20m ./..." > /tmp/vseed_${id}_${m}.suite.log 2>&1; then res="$res suite=pass"; else
   # one retry (machine may be loaded)
-  if go test -vet=off -count=1 -timeout 20m ./... > /tmp/vseed_${id}_${m}.suite.log 2>&1; then res="$res suite=pass(retry)"; else res="$res suite=FAIL"; fi
+  if unshare -n bash -c "ip link set lo up; go test -vet=off -count=1 -timeout 20m ./..." > /tmp/vseed_${id}_${m}.suite.log 2>&1; then res="$res suite=pass(retry)"; else res="$res suite=FAIL"; fi
 fi
 [ -f $win ] && git apply $win
 cp $demo $pkgdir/zz_demo_test.go
-if go test -vet=off -count=1 -run "^${tname}\$" ./$pkgdir > /tmp/vseed_${id}_${m}.mut.log 2>&1; then res="$res demo_on_mutant=PASS(bad)"; else res="$res demo_on_mutant=fail(good)"; fi
+if unshare -n bash -c "ip link set lo up; go test $RACEFLAG -vet=off -count=1 -run '^${tname}\$' ./$pkgdir" > /tmp/vseed_${id}_${m}.mut.log 2>&1; then res="$res demo_on_mutant=PASS(bad)"; else res="$res demo_on_mutant=fail(good)"; fi
 cd /; git -C /repo worktree remove --force $wt >/dev/null 2>&1
 echo "$res"
